@@ -266,3 +266,488 @@ pub fn exec_one(args: &[String]) {
     let res = guarded(move || expression_engine::execute(leak(&t), Context::new()));
     println!("{}", result_json(res));
 }
+
+// ---------------------------------------------------------------------------------------------
+// Programs with observable (logging, scripted) handlers: C06, C07, C14, C15, C08 dispatch.
+
+use std::collections::HashMap;
+use std::sync::{Arc, Mutex};
+
+pub struct CaseState {
+    pub rets: HashMap<String, Value>,
+    pub acts: HashMap<String, String>,
+    pub fault_k: u64,
+    pub fault_kind: String,
+    pub n: u64,
+    pub log: Vec<J>,
+    pub ctx_try_lock: Option<Box<dyn Fn() -> bool + Send>>,
+    pub ctx_lock_blocking: Option<Box<dyn Fn() + Send>>,
+}
+
+pub static CASE: Mutex<Option<CaseState>> = Mutex::new(None);
+
+fn an_error() -> expression_engine::Result<Value> {
+    // the crate does not export its Error type; obtain one from an accessor
+    Value::None.decimal().map(Value::Number)
+}
+
+/// The scripted, logging handler with identity `h`.
+pub fn handler_body(h: &str, args: Vec<Value>) -> expression_engine::Result<Value> {
+    let (outcome, act, reenter): (Result<Value, String>, String, Option<Box<dyn Fn() + Send>>) = {
+        let mut g = CASE.lock().unwrap_or_else(|e| e.into_inner());
+        let c = g.as_mut().expect("handler invoked outside a case");
+        c.n += 1;
+        let ctx_free = c.ctx_try_lock.as_ref().map(|f| f()).unwrap_or(true);
+        let regs = expression_engine::verif_hooks::locks_free();
+        c.log.push(json!([h, args.iter().map(value_to_json).collect::<Vec<_>>(), ctx_free, regs.iter().all(|b| *b)]));
+        let act = c.acts.get(h).cloned().unwrap_or_default();
+        let o = if c.fault_k == c.n { Err(c.fault_kind.clone()) } else { Ok(c.rets.get(h).cloned().unwrap_or(Value::None)) };
+        let re = if act == "lockctx-blocking" { c.ctx_lock_blocking.take() } else { None };
+        (o, act, re)
+    };
+    // re-entrant actions run outside the harness's own bookkeeping lock
+    match act.as_str() {
+        "parse" => {
+            let _ = expression_engine::parse_expression("1 + 2 * 3");
+        }
+        "execute" => {
+            let _ = expression_engine::execute("1 + 2 * 3", Context::new());
+        }
+        "regfun" => expression_engine::register_function("reent_f", Arc::new(|_| Ok(Value::None))),
+        "regprefix" => expression_engine::register_prefix_op("reent_pre", Arc::new(|v| Ok(v))),
+        "reginfix" => expression_engine::register_infix_op("reent_in", 33, expression_engine::InfixOpType::CALC, expression_engine::InfixOpAssociativity::LEFT, Arc::new(|a, _| Ok(a))),
+        "regpostfix" => expression_engine::register_postfix_op("reent_post", Arc::new(|v| Ok(v))),
+        "lockctx-blocking" => {
+            if let Some(f) = reenter {
+                f();
+            }
+        }
+        _ => {}
+    }
+    match outcome {
+        Ok(v) => Ok(v),
+        Err(kind) if kind == "panic" => panic!("scripted panic in handler {}", h),
+        Err(_) => an_error(),
+    }
+}
+
+fn handler_arc(h: &str) -> Arc<dyn Fn(Vec<Value>) -> expression_engine::Result<Value> + Send + Sync> {
+    let h = h.to_string();
+    Arc::new(move |args| handler_body(&h, args))
+}
+
+/// Build an ExprAST from the specification's program encoding.  Literals that cannot be written as literal tokens
+/// (negative numbers, lists, None ...) are bound to hidden context variables `__litN`.
+pub fn build_ast(j: &J, ctx: &mut Context, hidden: &mut u32) -> ExprAST<'static> {
+    let a = j.as_array().unwrap();
+    let sub = |x: &J, ctx: &mut Context, hidden: &mut u32| Box::new(build_ast(x, ctx, hidden));
+    match a[0].as_str().unwrap() {
+        "lit" => {
+            let v = json_to_value(&a[1]).unwrap_or_else(|| tool_error("literal not representable"));
+            value_ast(&v, ctx, hidden)
+        }
+        "none" => ExprAST::None,
+        "ref" => ExprAST::Reference(leak(a[1].as_str().unwrap())),
+        "call" => ExprAST::Function(leak(a[1].as_str().unwrap()), a[2].as_array().unwrap().iter().map(|x| build_ast(x, ctx, hidden)).collect()),
+        "un" => ExprAST::Unary(leak(a[1].as_str().unwrap()), sub(&a[2], ctx, hidden)),
+        "post" => ExprAST::Postfix(sub(&a[1], ctx, hidden), a[2].as_str().unwrap().to_string()),
+        "bin" => {
+            let l = sub(&a[2], ctx, hidden);
+            let r = sub(&a[3], ctx, hidden);
+            ExprAST::Binary(leak(a[1].as_str().unwrap()), l, r)
+        }
+        "tern" => {
+            let c = sub(&a[1], ctx, hidden);
+            let x = sub(&a[2], ctx, hidden);
+            let y = sub(&a[3], ctx, hidden);
+            ExprAST::Ternary(c, x, y)
+        }
+        "list" => ExprAST::List(a[1].as_array().unwrap().iter().map(|x| build_ast(x, ctx, hidden)).collect()),
+        "stmt" => ExprAST::Stmt(a[1].as_array().unwrap().iter().map(|x| build_ast(x, ctx, hidden)).collect()),
+        "map" => ExprAST::Map(a[1].as_array().unwrap().iter().map(|kv| (build_ast(&kv[0], ctx, hidden), build_ast(&kv[1], ctx, hidden))).collect()),
+        other => tool_error(&format!("unknown node {}", other)),
+    }
+}
+
+/// An AST that evaluates to `v` without being a name: literal tokens where possible, `- literal` for negative
+/// numbers, list / map / None nodes structurally; only strings containing both quote characters need a hidden variable.
+fn value_ast(v: &Value, ctx: &mut Context, hidden: &mut u32) -> ExprAST<'static> {
+    if let Some(l) = literal_ast(v) {
+        return l;
+    }
+    match v {
+        Value::None => ExprAST::None,
+        Value::Number(d) => ExprAST::Unary("-", Box::new(literal_ast(&Value::Number(-*d)).unwrap_or_else(|| tool_error("number literal")))),
+        Value::List(vs) => ExprAST::List(vs.iter().map(|x| value_ast(x, ctx, hidden)).collect()),
+        Value::Map(kvs) => ExprAST::Map(kvs.iter().map(|(k, x)| (value_ast(k, ctx, hidden), value_ast(x, ctx, hidden))).collect()),
+        _ => {
+            *hidden += 1;
+            let name = leak(&format!("__lit{}", hidden));
+            ctx.set_variable(name, v.clone());
+            ExprAST::Reference(name)
+        }
+    }
+}
+
+fn obj<'a>(j: &'a J, key: &str) -> Vec<(&'a String, &'a J)> {
+    j.get(key).and_then(|o| o.as_object()).map(|o| o.iter().collect()).unwrap_or_default()
+}
+
+pub struct Observed {
+    pub st: String,
+    pub val: J,
+    pub ctx: J,          // {name: ["var", v] | ["fn", "same"|"other"]}
+    pub log: Vec<J>,     // [h, args, ctx_free, regs_free]
+    pub poisoned: bool,
+    pub followups: Vec<String>,
+}
+
+/// Run one case {prog, ctx0, handlers, acts?, gfun, gprefix?, ginfix?, gpostfix?, fault} on the real engine.
+pub fn run_case(r: &J, followups: bool) -> Observed {
+    expression_engine::verif_hooks::init();
+    let mut rets = HashMap::new();
+    for (h, v) in obj(r, "handlers") {
+        rets.insert(h.clone(), json_to_value(v).unwrap_or(Value::None));
+    }
+    let mut acts = HashMap::new();
+    for (h, v) in obj(r, "acts") {
+        acts.insert(h.clone(), v.as_str().unwrap_or("").to_string());
+    }
+    for (name, h) in obj(r, "gfun") {
+        expression_engine::register_function(name, handler_arc(h.as_str().unwrap()));
+    }
+    for (name, h) in obj(r, "gprefix") {
+        let hh = h.as_str().unwrap().to_string();
+        expression_engine::register_prefix_op(name, Arc::new(move |v| handler_body(&hh, vec![v])));
+    }
+    for (name, h) in obj(r, "gpostfix") {
+        let hh = h.as_str().unwrap().to_string();
+        expression_engine::register_postfix_op(name, Arc::new(move |v| handler_body(&hh, vec![v])));
+    }
+    for (name, spec) in obj(r, "ginfix") {
+        let hh = spec[0].as_str().unwrap().to_string();
+        let ty = if spec[1] == "SETTER" { expression_engine::InfixOpType::SETTER } else { expression_engine::InfixOpType::CALC };
+        expression_engine::register_infix_op(name, 115, ty, expression_engine::InfixOpAssociativity::LEFT, Arc::new(move |a, b| handler_body(&hh, vec![a, b])));
+    }
+    let mut ctx = Context::new();
+    let mut installed: HashMap<String, Arc<dyn Fn(Vec<Value>) -> expression_engine::Result<Value> + Send + Sync>> = HashMap::new();
+    for (name, e) in obj(r, "ctx0") {
+        if e[0] == "var" {
+            ctx.set_variable(name, json_to_value(&e[1]).unwrap_or(Value::None));
+        } else {
+            let f = handler_arc(e[1].as_str().unwrap());
+            installed.insert(name.clone(), f.clone());
+            ctx.set_func(name, f);
+        }
+    }
+    let mut hidden = 0u32;
+    let ast = build_ast(&r["prog"], &mut ctx, &mut hidden);
+    let handle = ctx.0.clone();
+    let handle2 = ctx.0.clone();
+    let fault = &r["fault"];
+    *CASE.lock().unwrap_or_else(|e| e.into_inner()) = Some(CaseState {
+        rets,
+        acts,
+        fault_k: fault[0].as_u64().unwrap_or(0),
+        fault_kind: fault[1].as_str().unwrap_or("none").to_string(),
+        n: 0,
+        log: Vec::new(),
+        ctx_try_lock: Some(Box::new(move || handle.try_lock().is_ok())),
+        ctx_lock_blocking: Some(Box::new(move || {
+            let _g = handle2.lock();
+        })),
+    });
+    let res = guarded(std::panic::AssertUnwindSafe(|| ast.exec(&mut ctx)));
+    let (st, val) = match &res {
+        Err(_) => ("panic".to_string(), json!(["none"])),
+        Ok(Err(_)) => ("err".to_string(), json!(["none"])),
+        Ok(Ok(v)) => ("ok".to_string(), value_to_json(v)),
+    };
+    let log = CASE.lock().unwrap_or_else(|e| e.into_inner()).as_ref().map(|c| c.log.clone()).unwrap_or_default();
+    // final context through the public field and the accessors
+    let mut poisoned = false;
+    let keys: Vec<String> = match ctx.0.lock() {
+        Ok(g) => g.keys().cloned().collect(),
+        Err(_) => {
+            poisoned = true;
+            Vec::new()
+        }
+    };
+    let mut cj = serde_json::Map::new();
+    if !poisoned {
+        for k in keys {
+            if k.starts_with("__lit") {
+                continue;
+            }
+            if let Some(v) = ctx.get_variable(&k) {
+                cj.insert(k, json!(["var", value_to_json(&v)]));
+            } else if let Some(f) = ctx.get_func(&k) {
+                let same = installed.get(&k).map(|g| Arc::ptr_eq(g, &f)).unwrap_or(false);
+                cj.insert(k, json!(["fn", if same { "same" } else { "other" }]));
+            }
+        }
+    }
+    let mut fu = Vec::new();
+    if followups {
+        // C15: after a failed evaluation nothing is left held or poisoned
+        if poisoned {
+            fu.push("context mutex poisoned".to_string());
+        } else {
+            let probe = guarded(std::panic::AssertUnwindSafe(|| {
+                ctx.set_variable("__probe", Value::from(1));
+                let v = ctx.get_variable("__probe");
+                let e = parse_expression("__probe + 1").and_then(|a| a.exec(&mut ctx));
+                (v, e)
+            }));
+            match probe {
+                Ok((Some(v), Ok(e))) if v == Value::from(1) && e == Value::from(2) => {}
+                Ok(_) => fu.push("same context misbehaves after the failed evaluation".to_string()),
+                Err(m) => fu.push(format!("use of the same context panics afterwards: {}", m)),
+            }
+            if let Ok(mut g) = ctx.0.lock() {
+                g.remove("__probe");
+            }
+        }
+        if !expression_engine::verif_hooks::locks_free().iter().all(|b| *b) {
+            fu.push("a registry mutex is held or poisoned after the evaluation".to_string());
+        }
+        let other = std::thread::spawn(|| guarded(|| expression_engine::execute("2 * 3 + 1", Context::new()))).join();
+        match other {
+            Ok(Ok(Ok(v))) if v == Value::from(7) => {}
+            _ => fu.push("evaluation on another thread misbehaves afterwards".to_string()),
+        }
+        if guarded(|| expression_engine::register_function("__after", Arc::new(|_| Ok(Value::None)))).is_err() {
+            fu.push("registration panics afterwards".to_string());
+        }
+    }
+    *CASE.lock().unwrap_or_else(|e| e.into_inner()) = None;
+    Observed { st, val, ctx: J::Object(cj), log, poisoned, followups: fu }
+}
+
+fn ctx_matches(expected: &J, got: &J) -> bool {
+    // an empty TLA+ function prints as [] rather than {}
+    let empty = serde_json::Map::new();
+    let (e, g) = (expected.as_object().unwrap_or(&empty), got.as_object().unwrap_or(&empty));
+    if e.len() != g.len() {
+        return false;
+    }
+    e.iter().all(|(k, v)| match g.get(k) {
+        None => false,
+        Some(w) => {
+            if v[0] == "var" {
+                w[0] == "var" && veq(&v[1], &w[1])
+            } else {
+                w[0] == "fn" && w[1] == "same"
+            }
+        }
+    })
+}
+
+/// eval-replay <ndjson>: each line is a MCEval!Record.
+pub fn eval_replay(args: &[String]) {
+    silence_panics();
+    let mut recs = read_ndjson(&args[0]);
+    let mut out = Out::new(None);
+    let (mut n, mut bad, mut dc) = (0u64, 0u64, 0u64);
+    // --act X: every scripted handler additionally performs the re-entrant action X (C14)
+    if let Some(act) = arg_value(args, "--act") {
+        for r in recs.iter_mut() {
+            let hs: Vec<String> = r["handlers"].as_object().map(|o| o.keys().cloned().collect()).unwrap_or_default();
+            let mut m = serde_json::Map::new();
+            for h in hs {
+                m.insert(h, J::from(act.clone()));
+            }
+            r["acts"] = J::Object(m);
+        }
+    }
+    let from = arg_u64(args, "--from", 0) as usize;
+    let to = (arg_u64(args, "--to", recs.len() as u64) as usize).min(recs.len());
+    let progress = args.iter().any(|a| a == "--progress");
+    for (idx, r) in recs.iter().enumerate() {
+        if idx < from || idx >= to {
+            continue;
+        }
+        if progress || idx % 256 == 0 {
+            out.line(&json!({"at": idx}));
+            out.flush();
+        }
+        n += 1;
+        let o = run_case(r, true);
+        let exp_st = r["st"].as_str().unwrap();
+        let mut why: Vec<String> = Vec::new();
+        if exp_st == "dc" {
+            dc += 1;
+            if o.st == "panic" && r["fault"][1] != "panic" {
+                why.push("panic".into());
+            }
+        } else {
+            if o.st != exp_st {
+                why.push(format!("status: spec {} engine {}", exp_st, o.st));
+            } else if exp_st == "ok" && !veq(&r["val"], &o.val) {
+                why.push("value differs".into());
+            }
+            let elog = r["log"].as_array().unwrap();
+            let same_log = elog.len() == o.log.len()
+                && elog.iter().zip(o.log.iter()).all(|(e, g)| e[0] == g[0] && e[1].as_array().unwrap().len() == g[1].as_array().unwrap().len() && e[1].as_array().unwrap().iter().zip(g[1].as_array().unwrap()).all(|(x, y)| veq(x, y)));
+            if !same_log {
+                why.push(format!("handler log differs: spec {:?} engine {:?}", elog.iter().map(|e| e[0].as_str().unwrap_or("")).collect::<Vec<_>>(), o.log.iter().map(|e| e[0].as_str().unwrap_or("")).collect::<Vec<_>>()));
+            }
+            if !o.poisoned && !ctx_matches(&r["ctx"], &o.ctx) {
+                why.push("final context differs".into());
+            }
+        }
+        if o.log.iter().any(|e| e[2] == false) {
+            why.push("context lock held while a handler ran".into());
+        }
+        if o.log.iter().any(|e| e[3] == false) {
+            why.push("registry lock held while a handler ran".into());
+        }
+        why.extend(o.followups.iter().cloned());
+        if !why.is_empty() {
+            bad += 1;
+            out.line(&json!({"mismatch": idx, "why": why, "engine": {"st": o.st, "val": o.val, "ctx": o.ctx, "log": o.log}}));
+        }
+    }
+    out.line(&json!({"summary": {"cases": n, "mismatches": bad, "dontcare": dc}}));
+    out.flush();
+}
+
+// ---- leg T: random programs over the wide value domain ------------------------------------------------
+
+fn lit_num(rng: &mut impl Rng) -> J {
+    let d = match rng.gen_range(0..10) {
+        0..=4 => rust_decimal::Decimal::from(rng.gen_range(-20i64..50)),
+        5..=6 => rust_decimal::Decimal::from_i128_with_scale(rng.gen_range(-5000i128..5000), rng.gen_range(0..4)),
+        7 => rust_decimal::Decimal::from(rng.gen::<i64>() >> rng.gen_range(0..60)),
+        _ => random_decimal(rng),
+    };
+    json!(["lit", dec_to_json(&d)])
+}
+
+fn pick<R: Rng>(rng: &mut R, xs: &[&'static str]) -> &'static str {
+    xs[rng.gen_range(0..xs.len())]
+}
+
+struct Gen<'a, R: Rng> {
+    rng: &'a mut R,
+    num_vars: Vec<&'static str>,
+    bool_vars: Vec<&'static str>,
+    num_fns: Vec<&'static str>,  // context functions returning numbers
+    bool_fns: Vec<&'static str>, // context functions returning booleans
+}
+
+impl<'a, R: Rng> Gen<'a, R> {
+    fn num(&mut self, d: u32) -> J {
+        if self.rng.gen_range(0..100) < 4 {
+            return self.boolean(d.saturating_sub(1)); // a wrongly typed operand now and then
+        }
+        if d == 0 {
+            return match self.rng.gen_range(0..10) {
+                0..=4 => lit_num(self.rng),
+                5..=6 => json!(["ref", pick(self.rng, &self.num_vars.clone())]),
+                7 => json!(["ref", pick(self.rng, &self.num_fns.clone())]),
+                _ => json!(["call", pick(self.rng, &self.num_fns.clone()), []]),
+            };
+        }
+        match self.rng.gen_range(0..14) {
+            0..=4 => {
+                let op = pick(self.rng, &["+", "-", "*", "%", "/", "+", "-", "*"]);
+                json!(["bin", op, self.num(d - 1), self.num(d - 1)])
+            }
+            5 => json!(["bin", pick(self.rng, &["&", "|", "^", "<<", ">>"]), self.num(d - 1), json!(["lit", dec_to_json(&rust_decimal::Decimal::from(self.rng.gen_range(-1i64..66)))])]),
+            6 => json!(["un", pick(self.rng, &["-", "+"]), self.num(d - 1)]),
+            7 => json!(["post", self.num(d - 1), pick(self.rng, &["++", "--"])]),
+            8 => json!(["tern", self.boolean(d - 1), self.num(d - 1), self.num(d - 1)]),
+            9 => {
+                let k = self.rng.gen_range(0..4);
+                json!(["call", pick(self.rng, &["min", "max", "sum", "mul"]), (0..k).map(|_| self.num(d - 1)).collect::<Vec<_>>()])
+            }
+            10 => json!(["call", pick(self.rng, &["G1", "G2"]), [self.num(d - 1), self.any(d - 1)]]),
+            11 => json!(["call", pick(self.rng, &self.num_fns.clone()), [self.num(d - 1)]]),
+            _ => self.num(0),
+        }
+    }
+    fn boolean(&mut self, d: u32) -> J {
+        if self.rng.gen_range(0..100) < 4 {
+            return self.num(d.saturating_sub(1));
+        }
+        if d == 0 {
+            return match self.rng.gen_range(0..8) {
+                0..=2 => json!(["lit", ["bool", self.rng.gen_bool(0.5)]]),
+                3..=4 => json!(["ref", pick(self.rng, &self.bool_vars.clone())]),
+                5 => json!(["ref", pick(self.rng, &self.bool_fns.clone())]),
+                _ => json!(["call", pick(self.rng, &self.bool_fns.clone()), []]),
+            };
+        }
+        match self.rng.gen_range(0..10) {
+            0..=2 => json!(["bin", pick(self.rng, &["<", "<=", ">", ">=", "==", "!="]), self.num(d - 1), self.num(d - 1)]),
+            3..=4 => json!(["bin", pick(self.rng, &["&&", "||"]), self.boolean(d - 1), self.boolean(d - 1)]),
+            5 => json!(["un", pick(self.rng, &["!", "not"]), self.boolean(d - 1)]),
+            6 => json!(["bin", "in", self.num(d - 1), json!(["list", [self.num(d - 1), self.any(d - 1), self.num(d - 1)]])]),
+            7 => json!(["un", pick(self.rng, &["AND", "OR"]), json!(["list", [self.boolean(d - 1), self.boolean(d - 1)]])]),
+            8 => json!(["bin", pick(self.rng, &["==", "!="]), self.any(d - 1), self.any(d - 1)]),
+            _ => json!(["tern", self.boolean(d - 1), self.boolean(d - 1), self.boolean(d - 1)]),
+        }
+    }
+    fn any(&mut self, d: u32) -> J {
+        match self.rng.gen_range(0..10) {
+            0..=3 => self.num(d),
+            4..=5 => self.boolean(d),
+            6 => json!(["lit", ["str", pick(self.rng, &["", "a", "é€"]).chars().map(|c| c as u32).collect::<Vec<_>>()]]),
+            7 if d > 0 => json!(["list", (0..self.rng.gen_range(0..3)).map(|_| self.any(d - 1)).collect::<Vec<_>>()]),
+            8 if d > 0 => json!(["map", (0..self.rng.gen_range(0..3)).map(|_| json!([self.any(d - 1), self.any(d - 1)])).collect::<Vec<_>>()]),
+            9 => json!(["ref", "unbound"]),
+            _ => json!(["none"]),
+        }
+    }
+    fn stmt(&mut self, d: u32) -> J {
+        match self.rng.gen_range(0..10) {
+            0..=3 => {
+                let op = pick(self.rng, &["=", "=", "+=", "-=", "*=", "/=", "%=", "<<=", ">>=", "&=", "^=", "|="]);
+                let target = if self.rng.gen_range(0..30) == 0 { lit_num(self.rng) } else { json!(["ref", pick(self.rng, &self.num_vars.clone())]) };
+                json!(["bin", op, target, self.num(d)])
+            }
+            4 => json!(["bin", "=", json!(["ref", pick(self.rng, &self.bool_vars.clone())]), self.boolean(d)]),
+            5 => json!(["bin", "=", json!(["ref", "a"]), json!(["bin", "=", json!(["ref", "b"]), self.num(d)])]),
+            6 => json!(["bin", "=", json!(["ref", self.num_fns[0]]), self.num(d)]), // a target that is bound to a function
+            _ => self.any(d),
+        }
+    }
+}
+
+/// eval-record: random programs with scripted handlers; each line is the case plus what the engine did (`obs`).
+pub fn eval_record(args: &[String]) {
+    silence_panics();
+    let seed = arg_u64(args, "--seed", 1);
+    let n = arg_u64(args, "--n", 500);
+    let maxdepth = arg_u64(args, "--depth", 4) as u32;
+    let mut out = Out::new(arg_value(args, "--out").as_deref());
+    let mut r = rng(seed, 70);
+    for _ in 0..n {
+        let mut handlers = serde_json::Map::new();
+        for (i, h) in ["h1", "h2", "h3", "h4", "h5", "h6"].iter().enumerate() {
+            let v = if i == 2 || i == 3 { json!(["bool", r.gen_bool(0.5)]) } else { lit_num(&mut r)[1].clone() };
+            handlers.insert(h.to_string(), v);
+        }
+        let ctx0 = json!({
+            "a": ["var", lit_num(&mut r)[1].clone()], "b": ["var", lit_num(&mut r)[1].clone()], "c": ["var", lit_num(&mut r)[1].clone()],
+            "p": ["var", ["bool", r.gen_bool(0.5)]], "q": ["var", ["bool", r.gen_bool(0.5)]],
+            "f1": ["fn", "h1"], "f2": ["fn", "h2"], "t1": ["fn", "h3"], "t2": ["fn", "h4"]
+        });
+        let mut g = Gen { rng: &mut r, num_vars: vec!["a", "b", "c"], bool_vars: vec!["p", "q"], num_fns: vec!["f1", "f2"], bool_fns: vec!["t1", "t2"] };
+        let nst = g.rng.gen_range(1..6);
+        let stmts: Vec<J> = (0..nst).map(|_| { let d = g.rng.gen_range(0..=maxdepth); g.stmt(d) }).collect();
+        let prog = if stmts.len() == 1 { stmts[0].clone() } else { json!(["stmt", stmts]) };
+        let fault = match r.gen_range(0..4) {
+            0 => json!([r.gen_range(1..6), "err"]),
+            1 => json!([r.gen_range(1..6), "panic"]),
+            _ => json!([0, "none"]),
+        };
+        let case = json!({"prog": prog, "ctx0": ctx0, "handlers": handlers, "gfun": {"G1": "h5", "G2": "h6"}, "fault": fault});
+        let o = run_case(&case, true);
+        let mut rec = case;
+        rec["obs"] = json!({"st": o.st, "val": o.val, "ctx": o.ctx, "log": o.log, "poisoned": o.poisoned, "followups": o.followups});
+        out.line(&rec);
+    }
+    out.flush();
+}
